@@ -84,7 +84,7 @@ let run which (input : Sexp.t) (impl : Sexp.t) : Verdict.t =
     cls = Printf.sprintf "ops%s_sp%s_sh%s_%s" (if List.length ops < 10 then "lt10" else "ge10")
         (if List.length sp < 4 then "lt4" else "ge4") (if nshared = 0 then "0" else "some") (if nonempty then "hit" else "nohit");
     model = Sexp.L [Sexp.L (Sexp.A "results" :: List.map sx_ires mresults);
-                    Sexp.L [Sexp.A "gstats"; sx_int (fst mg); sx_int (snd mg)]] }
+                    Sexp.L [Sexp.A "gstats"; sx_int (fst mg); sx_int (snd mg)]]; why = "" }
 
 let run_tm (input : Sexp.t) (impl : Sexp.t) : Verdict.t =
   let t = bytes_of_sx (Sexp.field1 "t" input) and f = bytes_of_sx (Sexp.field1 "f" input) in
@@ -94,4 +94,4 @@ let run_tm (input : Sexp.t) (impl : Sexp.t) : Verdict.t =
   { Verdict.agree = (m = Some r); oracle = tm_ok t f r; kf = "-";
     nontrivial = valid;
     cls = Printf.sprintf "%s_%s" (if valid then "valid" else "invalid") (if r then "match" else "nomatch");
-    model = Sexp.A (match m with None -> "outoffuel" | Some true -> "1" | Some false -> "0") }
+    model = Sexp.A (match m with None -> "outoffuel" | Some true -> "1" | Some false -> "0"); why = "" }
